@@ -243,3 +243,24 @@ impl Encoder<(RequestId, Tag, MaybeControls)> for LdapCodec {
         Ok(())
     }
 }
+
+/// Verification hook: the frame decoder, callable without a connection.
+#[cfg(ldap3_verif)]
+#[allow(clippy::type_complexity)]
+pub fn verif_decode(
+    buf: &mut BytesMut,
+) -> Result<Option<(RequestId, (Tag, Vec<Control>))>, io::Error> {
+    decode_inner(buf)
+}
+
+/// Verification hook: the message encoder, callable without a connection.
+#[cfg(all(ldap3_verif, not(feature = "gssapi")))]
+pub fn verif_encode(
+    id: RequestId,
+    tag: Tag,
+    controls: MaybeControls,
+    into: &mut BytesMut,
+) -> io::Result<()> {
+    let mut codec = LdapCodec {};
+    codec.encode((id, tag, controls), into)
+}
